@@ -89,6 +89,8 @@ Lemma gwriteDescriptorsWithLength_is_model ds :
   wfn_sim (gwriteDescriptorsWithLength ds) (enc_descriptors_with_length ds) (descriptors_written ds + 2).
 Proof. unfold gwriteDescriptorsWithLength, with_bodies. apply writeDescriptorsWithLength_is_model; intros; with_bodies_hyps. Qed.
 
+Definition gcalcPMTProgramInfoLength := calcPMTProgramInfoLength gcalcDescriptorsLength.
+
 (* ---- the statements the property files quote ---- *)
 
 (* C09 / C13: the PSI writers *)
@@ -230,3 +232,11 @@ Example psi_writer_runs :
   length (bytes_of_items (map snd (fst (gwritePSIData ex_psi)))) = 30%nat /\
   computeCRC32 (firstn 29 (skipn 1 (bytes_of_items (map snd (fst (gwritePSIData ex_psi)))))) = 0.
 Proof. vm_compute. repeat split. Qed.
+
+(* C13: calcPMTProgramInfoLength (unused by the package, exported to nobody) against the model's section length *)
+Theorem pmt_program_info_length_is_source d :
+  calc_pmt_section_length d = (gcalcPMTProgramInfoLength d + 2) mod 65536.
+Proof.
+  unfold gcalcPMTProgramInfoLength. rewrite <- calcPMTProgramInfoLength_section.
+  symmetry. apply calcPMTSectionLength_is_model. exact gcalcDescriptorsLength_is_model.
+Qed.
